@@ -19,8 +19,8 @@ import defs as D      # noqa: E402
 import t3gen as T     # noqa: E402
 
 TIERS = {
-    'quick': {'crates': 6, 'per_crate': 14, 'walks': 4, 'abandon_cap': 14, 'assign_per_combo': 1},
-    'thorough': {'crates': 16, 'per_crate': 56, 'walks': 12, 'abandon_cap': 60, 'assign_per_combo': 4},
+    'quick': {'crates': 6, 'per_crate': 14, 'walks': 4, 'abandon_cap': 14, 'assign_per_combo': 1, 'pairs': 2},
+    'thorough': {'crates': 16, 'per_crate': 56, 'walks': 12, 'abandon_cap': 60, 'assign_per_combo': 4, 'pairs': 6},
 }
 
 # ---------------------------------------------------------------------------------------
@@ -246,6 +246,15 @@ def oracles(rec):
             if is_ok:
                 if got_calls != exp_calls:
                     fail('C04', f'call succeeded but the hooks that ran are {got_calls}; documented: {exp_calls}')
+                    # which kind of hook is not what was declared for this edge
+                    def of(kinds, calls):
+                        return [(k, n) for (k, n, _) in calls if k in kinds]
+                    if of(('cond',), got_calls) != of(('cond',), exp_calls):
+                        fail('C03', f'{src} --{e["event"]}--> fired after consulting {of(("cond",), got_calls)}; the conditions '
+                                    f'declared for this transition are {of(("cond",), exp_calls)}')
+                    if of(('ab', 'aa'), got_calls) != of(('ab', 'aa'), exp_calls):
+                        fail('C06', f'{src} --{e["event"]}--> was bracketed by {of(("ab", "aa"), got_calls)}; the around callbacks '
+                                    f'declared for this transition are {of(("ab", "aa"), exp_calls)}')
                 if cur[1] != e['target']:
                     fail('C01', f'{src} --{e["event"]}--> should reach {e["target"]}, machine is in {cur[1]}')
                 pl = toks[2] if evi['payload'] else '-'
@@ -334,6 +343,67 @@ def oracles(rec):
     return out
 
 # ---------------------------------------------------------------------------------------
+
+# ---------------------------------------------------------------------------------------
+# C09: the same script through the dynamic wrapper and through the typed methods
+
+def scn_pair(rng, info, d, n_ops=10):
+    """(dynamic ops, typed ops): newdyn + handles / newtyped + the typed methods of the same events"""
+    hooks = T.hooks_used(d)
+    conds = sorted(n for n, (k, _) in hooks.items() if k in ('guards', 'unless'))
+    guards = sorted(n for n, (k, _) in hooks.items() if k == 'guards')
+    fields = [x['field'] for x in info['storage']]
+    c = rng.randint(1, 50)
+    dyn, typed = [T.op_line(f'newdyn {c}')], [T.op_line(f'newtyped {c}')]
+    for _ in range(n_ops):
+        sigma = [g for g in guards if rng.random() < 0.8] + [x for x in conds if x not in guards and rng.random() < 0.15]
+        script = [T.rand_entry(rng, conds, fields, 0.15) for _ in range(8)]
+        script = [x if 'x=1' not in x else '-' for x in script]
+        ev = rng.choice(info['events'])
+        p_ = str(rng.randint(100, 199)) if ev['payload'] else '-'
+        dyn.append(T.op_line(f'handle {ev["pascal"]} {p_}', sigma, script))
+        typed.append(T.op_line(f'tcall {ev["method"]} {p_}', sigma, script))
+    dyn.append(T.op_line('drop'))
+    typed.append(T.op_line('drop'))
+    return dyn, typed
+
+def compare_pair(info, dyn_ops, dl, tl):
+    """first step at which the wrapper and the typed method disagree (C09); None if they agree"""
+    src = None
+    for i, (a, b) in enumerate(zip(dl, tl)):
+        oa, ob = parse_line(a), parse_line(b)
+        if oa is None or ob is None:
+            return None
+        ca, cb = obs_state(oa['obs']), obs_state(ob['obs'])
+        toks = dyn_ops[i].split(' ; ')[0].split()
+        if toks[0] == 'handle':
+            evs = [x for x in info['events'] if x['pascal'] == toks[1]]
+            evn = evs[0]['name'] if evs else '?'
+            rt, rd = ob['res'], oa['res']
+            if rt == 'nosuch':
+                want = f'errdyn:IT:{src}:{evn}'
+            elif rt == 'ok' or rt.startswith('panic'):
+                want = rt
+            elif rt.startswith('errguard:'):
+                _, g, e_, k = rt.split(':', 3)
+                want = (f'errdyn:IT:{src}:{e_}' if k == 'I' else
+                        f'errdyn:GF:{k[2:]}:{e_}' if k.startswith('G~') else f'errdyn:AF:{k[2:]}:{e_}')
+            else:
+                want = rt
+            if rd != want:
+                return i, f'in state {src}: the typed method returns {rt}, so handle should return {want}; it returned {rd}'
+            ka = [(c['kind'], c['name'], c['state'], c['ctx'], c['ctxArg'], c['payload'], c['slots']) for c in oa['calls']]
+            kb = [(c['kind'], c['name'], c['state'], c['ctx'], c['ctxArg'], c['payload'], c['slots']) for c in ob['calls']]
+            if ka != kb:
+                return i, f'in state {src}: hooks seen through handle {ka} differ from hooks of the typed method {kb}'
+            if rt.startswith('panic'):
+                return None
+            if ca[1] != cb[1]:
+                return i, f'after the call the wrapper is in {ca[1]}, the typed machine in {cb[1]}'
+        src = cb[1]
+        if ca[1] != cb[1]:
+            return i, f'the wrapper is in {ca[1]}, the typed machine in {cb[1]}'
+    return None
 
 def _perm(names):
     """an order-reversing bijection of a set of names onto itself"""
@@ -471,9 +541,28 @@ def gen_defs(tier, seed):
         crates.append(ds)
     return crates
 
-def run(tier, seed, work, repo):
+def run(tier, seed, work, repo, suspects=None):
+    """suspects: definitions on which the token-level tie found the expansion to differ from the
+    model's; they are compiled (with harness types) and driven edge by edge, so that a broken tie comes
+    with a concrete failing input whenever the difference is behavioural"""
     cfg = TIERS[tier]
     crates = gen_defs(tier, seed)
+    if suspects:
+        ds = []
+        for k, (feature, d) in enumerate(suspects):
+            try:
+                td = T.t3ify(d)
+            except Exception:
+                continue
+            ds.append({'id': f'sus{k}', 'feature': bool(feature), 'def': td, 'family': 'suspect', 'crate': len(crates), 'mod': k,
+                       'suspect': True})
+        # one crate per feature setting
+        for feat in (False, True):
+            sub = [x for x in ds if x['feature'] == feat]
+            if sub:
+                for x in sub:
+                    x['crate'] = len(crates)
+                crates.append(sub)
     allds = [x for c in crates for x in c]
     infos = T.get_infos([(x['id'], x['feature'], x['def']) for x in allds])
     root = os.path.join(work, 't3')
@@ -503,11 +592,14 @@ def run(tier, seed, work, repo):
             ok1, err1 = build_unit(f'{ci}_{x["mod"]}', [x], feature)
             units.append((f'{ci}_{x["mod"]}', [x], None if ok1 else err1))
         return units
-    with ThreadPoolExecutor(min(8, cfg['crates'])) as ex:
+    with ThreadPoolExecutor(min(8, len(crates))) as ex:
         built = [u for us in ex.map(build, range(len(crates))) for u in us]
     result['compile_failures'] = []
     rng = random.Random(seed * 31 + 5)
     for uname, uds, berr in built:
+        if berr is not None and all(x.get('suspect') for x in uds):
+            result['suspects_not_built'] = result.get('suspects_not_built', 0) + len(uds)
+            continue
         if berr is not None:
             for x in uds:
                 result['compile_failures'].append({'dsl': x['text'], 'feature': x['feature'], 'prefix': D.to_prefix(x['def']),
@@ -524,6 +616,11 @@ def run(tier, seed, work, repo):
             shape = f"async={info['async']},concrete={info['concrete']},payload={any(e['payload'] for e in info['events'])},dynamic={info['dynamic']}"
             result['shapes'][shape] = result['shapes'].get(shape, 0) + 1
             fams = []
+            if x.get('suspect') or x['family'] == 'hier':
+                for ops in T.scn_edges(info, x['def']):
+                    fams.append(('edges', ops))
+                if x.get('suspect'):
+                    result['suspects_driven'] = result.get('suspects_driven', 0) + 1
             for k in range(cfg['walks']):
                 fams.append(('walk', T.scn_walk(rng, info, x['def'])))
             if info['async']:
@@ -533,6 +630,11 @@ def run(tier, seed, work, repo):
                 for mode in (['dyn'] if info['dynamic'] else []) + ['typed']:
                     for ops in T.scn_assign(rng, info, x['def'], mode):
                         fams.append(('assign', ops))
+            if info['dynamic'] and info['events']:
+                for k in range(cfg['pairs']):
+                    dops, tops = scn_pair(rng, info, x['def'])
+                    fams.append(('pair', dops))
+                    fams.append(('pairt', tops))
             ab = T.scn_abandon(rng, info, x['def'])
             rng.shuffle(ab)
             for ops in ab[:cfg['abandon_cap']]:
@@ -583,6 +685,19 @@ def run(tier, seed, work, repo):
             if len(result['samples']) < 4 and s['family'] in ('assign', 'abandon', 'walk') and len(il) > 3:
                 if not any(x['family'] == s['family'] for x in result['samples']):
                     result['samples'].append({'family': s['family'], 'dsl': rec['dsl'][:500], 'ops': s['ops'][:4], 'observed': il[:4]})
+        for j, sc in enumerate(scns):
+            if sc['family'] != 'pair' or j + 1 >= len(scns) or scns[j + 1]['family'] != 'pairt':
+                continue
+            dl, tl = impl.get(sc['sid'], []), impl.get(scns[j + 1]['sid'], [])
+            result['pair_scenarios'] = result.get('pair_scenarios', 0) + 1
+            bad = compare_pair(sc['x']['info'], sc['ops'], dl, tl)
+            if bad:
+                k, what = bad
+                result['oracle_failures'].append({
+                    'property': 'C09', 'op_index': k, 'what': 'dynamic and typestate modes disagree: ' + what, 'sid': sc['sid'],
+                    'family': 'pair', 'dsl': sc['x']['text'], 'feature': sc['x']['feature'], 'prefix': D.to_prefix(sc['x']['def']),
+                    'ops': sc['ops'][:k + 1], 'observed': dl[k] if k < len(dl) else '<missing>',
+                    'typed_ops': scns[j + 1]['ops'][:k + 1], 'typed_observed': tl[k] if k < len(tl) else '<missing>'})
         for ts in twin_scns:
             a = impl.get(ts['of']['sid'], [])
             b = impl.get(ts['sid'], [])
@@ -599,7 +714,10 @@ def run(tier, seed, work, repo):
                     'property': prop, 'op_index': k, 'what': what, 'sid': ts['sid'], 'family': ts['of']['family'],
                     'dsl': ts['of']['x']['text'], 'feature': ts['of']['x']['feature'], 'prefix': D.to_prefix(ts['of']['x']['def']),
                     'ops': ts['of']['ops'][:k + 1], 'observed': a[k] if k < len(a) else '<missing>',
-                    'twin_dsl': ts['twin']['text'], 'twin_observed': b[k] if k < len(b) else '<missing>'})
+                    'twin_dsl': ts['twin']['text'], 'twin_kind': kind, 'twin_ops': ts['ops'][:k + 1],
+                    'twin_prefix': D.to_prefix(ts['twin']['def']),
+                    'twin_inv': ts['twin'].get('inv'),
+                    'twin_observed': b[k] if k < len(b) else '<missing>'})
         shutil.rmtree(os.path.join(root, f'target{uname}'), ignore_errors=True)
     shutil.rmtree(root, ignore_errors=True)
     # a C01 failure on a definition that uses superstates is a C07 failure too (the relation the machine
@@ -641,8 +759,35 @@ def replay_one(payload, work, repo):
     if not ok:
         shutil.rmtree(root, ignore_errors=True)
         return {'build_error': err[-3000:], 'impl': [], 'model': None, 'oracle_failures': [{'property': 'C14', 'what': 'does not compile'}]}
-    impl, rc, e2 = T.run_impl_scenarios(os.path.join(root, 'target', 'debug', 't3crate'), [('r', 0, payload['ops'])])
+    scn = [('r', 0, payload['ops'])]
+    if payload.get('typed_ops'):
+        scn.append(('rt', 0, payload['typed_ops']))
+    impl, rc, e2 = T.run_impl_scenarios(os.path.join(root, 'target', 'debug', 't3crate'), scn)
     model = T.run_model_scenarios([('r', feature, d, payload['ops'])])
     shutil.rmtree(root, ignore_errors=True)
     rec = {'ops': payload['ops'], 'impl': impl.get('r', []), 'model': model.get('r', []), 'info': info}
-    return {'impl': rec['impl'], 'model': rec['model'], 'oracle_failures': oracles(rec)}
+    fails = oracles(rec)
+    if payload.get('typed_ops'):
+        bad = compare_pair(info, payload['ops'], impl.get('r', []), impl.get('rt', []))
+        if bad:
+            fails.append({'property': 'C09', 'op_index': bad[0], 'what': 'dynamic and typestate modes disagree: ' + bad[1]})
+    if payload.get('twin_dsl') and payload.get('twin_ops'):
+        # the twin machine (sync expansion / renamed definition) on the same operations
+        td = D.parse_text(payload['twin_dsl'])
+        tinfo = T.get_infos([('t', feature, td)])['t']
+        tcode = T.module_code(0, td, payload['twin_dsl'], tinfo)
+        T.write_crate(os.path.join(root, 'crate'), [(0, tcode)], repo, feature)
+        ok, err = T.build_crate(os.path.join(root, 'crate'), os.path.join(root, 'target'))
+        if ok:
+            timpl, _, _ = T.run_impl_scenarios(os.path.join(root, 'target', 'debug', 't3crate'), [('t', 0, payload['twin_ops'])])
+            b = timpl.get('t', [])
+            if payload.get('twin_kind') == 'ren' and payload.get('twin_inv'):
+                b = [map_tokens(l, payload['twin_inv']) for l in b]
+            a = impl.get('r', [])
+            if a != b:
+                k = next((j for j, (x, y) in enumerate(zip(a, b)) if x != y), min(len(a), len(b)))
+                fails.append({'property': 'C15' if payload.get('twin_kind') == 'sync' else 'C18', 'op_index': k,
+                              'what': 'the machine and its twin disagree', 'observed': a[k] if k < len(a) else '<missing>',
+                              'twin_observed': b[k] if k < len(b) else '<missing>'})
+        shutil.rmtree(root, ignore_errors=True)
+    return {'impl': rec['impl'], 'model': rec['model'], 'oracle_failures': fails}
